@@ -41,6 +41,8 @@ def make_call(inst: Instance, kind: str, selection: Optional[dict], args: tuple,
         f = lambda: executor_obj(*args)  # noqa: E731
     elif kind == "setup":
         f = lambda: d.setup(**kw)  # noqa: E731
+    elif kind == "executor_setup":
+        f = lambda: d.executor(**kw).setup()  # noqa: E731  (the setup nodes the executor's own selection needs)
     else:
         raise ValueError(kind)
     if prog.is_async:
@@ -60,7 +62,7 @@ def run_op(acc, case, hist_so_far, inst: Instance, kind: str, selection: Optiona
     acc.evaluations += 1
     if sel_override is not None:
         sel = sel_override
-    elif kind == "setup":
+    elif kind in ("setup", "executor_setup"):
         sel = selection_set(prog, dict(selection or {}, setup=True))
     else:
         sel = selection_set(prog, selection) if selection else None
